@@ -921,7 +921,9 @@ func (in *injector) at(point string) {
 					var old syscall.Rlimit
 					if syscall.Getrlimit(syscall.RLIMIT_FSIZE, &old) == nil {
 						in.fsize = &old
-						_ = syscall.Setrlimit(syscall.RLIMIT_FSIZE, &syscall.Rlimit{Cur: uint64(st.Size()), Max: old.Max})
+						// 0 or 5 of the 11 bytes of the EOF trailer still fit: the tail repair has something to cut
+						slack := uint64(in.r.rng.Intn(2) * 5)
+						_ = syscall.Setrlimit(syscall.RLIMIT_FSIZE, &syscall.Rlimit{Cur: uint64(st.Size()) + slack, Max: old.Max})
 						in.injected = true
 					}
 				}
@@ -1007,6 +1009,9 @@ func (r *runner) withFault(o Op, f func() error) error {
 		_ = syscall.Setrlimit(syscall.RLIMIT_NOFILE, &syscall.Rlimit{Cur: lowestFreeFd(), Max: old.Max})
 		err := f()
 		_ = syscall.Setrlimit(syscall.RLIMIT_NOFILE, &old)
+		if err != nil {
+			r.res.Hit("inject:create")
+		}
 		return err
 	case "append":
 		if !r.serial {
@@ -1481,6 +1486,9 @@ func main() {
 		t1 := time.Now()
 		_ = os.MkdirAll(runRoot, 0o755)
 		runCodec(f, res, *shardFlag, *shardsFlag, runRoot)
+		if *shardFlag == 0 {
+			runGlue(res, runRoot)
+		}
 		res.Note("shard %d/%d: byte-level codec / framing section in %.1fs", *shardFlag, *shardsFlag, time.Since(t1).Seconds())
 	}
 	_ = os.RemoveAll(runRoot)
